@@ -63,15 +63,22 @@ impl RegExpBuilder {
     /// The final line ending is optional.
     ///
     /// ⚠ Panics if:
+    /// - the file does not contain any test cases
     /// - the file cannot be found
     /// - the file's encoding is not valid UTF-8 data
     /// - the file cannot be opened because of conflicting permissions
     pub fn from_file<T: Into<PathBuf>>(file_path: T) -> Self {
         match std::fs::read_to_string(file_path.into()) {
-            Ok(file_content) => Self {
-                test_cases: file_content.lines().map(|it| it.to_string()).collect_vec(),
-                config: RegExpConfig::new(),
-            },
+            Ok(file_content) => {
+                let test_cases = file_content.lines().map(|it| it.to_string()).collect_vec();
+                if test_cases.is_empty() {
+                    panic!("{}", MISSING_TEST_CASES_MESSAGE);
+                }
+                Self {
+                    test_cases,
+                    config: RegExpConfig::new(),
+                }
+            }
             Err(error) => match error.kind() {
                 ErrorKind::NotFound => panic!("The specified file could not be found"),
                 ErrorKind::InvalidData => {
